@@ -13,15 +13,23 @@ pub fn gen(ctx: &mut Ctx) {
         for rk in [None, Some(Rk::Discouraged), Some(Rk::Preferred), Some(Rk::Required)] {
             for rrk in [false, true] {
                 for cp in [None, Some(false), Some(true)] {
-                    let w = World { kind, counter_on: false, id_len: 16, hm: Hm::None, preload: vec![] };
+                    // a third of the rows on an authenticator with the PRF extension, asking for it beside credProps
+                    let with_prf = (rrk as usize + cp.is_some() as usize + rk.map(|k| k as usize).unwrap_or(3)) % 3 == 0;
+                    let w = World { kind, counter_on: false, id_len: 16, hm: if with_prf { Hm::NoUvMc } else { Hm::None }, preload: vec![] };
                     let mut r = simple_reg(ctx, url, Some("example.com"));
                     r.sel = Some(Sel { rk, rrk, uv: UvR::Preferred });
-                    r.ext = cp.map(|b| CExt { cred_props: Some(b), prf: None, prf_hashed: None });
-                    let a = simple_auth(ctx, url, Some("example.com"));
+                    r.ext = if with_prf { Some(CExt { cred_props: cp, prf: Some(CPrfI { eval: Some(CPrfV { first: ctx.rng.bytes(9), second: None }), by_cred: None }), prf_hashed: None }) }
+                            else { cp.map(|b| CExt { cred_props: Some(b), prf: None, prf_hashed: None }) };
+                    // user ids of any length, the empty one included
+                    if cp == Some(true) && rrk { r.user = vec![]; }
+                    let mut a = simple_auth(ctx, url, Some("example.com"));
+                    // an assertion without user verification still returns what is stored
+                    if !rrk { a.uv = UvR::Discouraged; }
                     // the assertion names no credential: the contract store lists what is stored for the RP
                     // ... and a second assertion that names the credential just made (reaches non-discoverable ones)
                     let mut b = simple_auth(ctx, url, Some("example.com")); b.allow_last = true;
-                    run_ccase(ctx, "C11", &w, &[cstep(COp::Reg(r)), cstep(COp::Auth(a)), cstep(COp::Auth(b))]);
+                    let mut sa = cstep(COp::Auth(a)); if !rrk { sa.uv = UvState { answer: Ok((true, false)), ..UvState::ok() }; }
+                    run_ccase(ctx, "C11", &w, &[cstep(COp::Reg(r)), sa, cstep(COp::Auth(b))]);
                     ctx.stat("c11.client_rows");
                 }
             }
@@ -38,9 +46,10 @@ pub fn gen(ctx: &mut Ctx) {
         for rk in [false, true] { for counter_on in [false, true] {
             let w = World { kind, counter_on, id_len: 16, hm: Hm::None, preload: vec![] };
             let mut m = simple_make(ctx, "example.com"); m.rk = rk;
+            if counter_on && rk { m.user = vec![]; }
             let g = simple_get(ctx, "example.com");
-            let mut g2 = simple_get(ctx, "example.com"); g2.allow = Some(vec![b"@last".to_vec()]);
-            let g3 = simple_get(ctx, "example.com");
+            let mut g2 = simple_get(ctx, "example.com"); g2.allow = Some(vec![b"@last".to_vec()]); g2.uv = false;
+            let mut g3 = simple_get(ctx, "example.com"); g3.uv = false; g3.up = false;
             let mut g4 = simple_get(ctx, "example.com"); g4.allow = Some(vec![b"@last".to_vec()]);
             run_case(ctx, "C11", &w, &[step(Op::Make(m)), step(Op::Get(g)), step(Op::Get(g2)), step(Op::Get(g3)), step(Op::Get(g4))]);
             ctx.stat("c11.ctap_rows"); }
